@@ -67,7 +67,7 @@ func TestC08(t *testing.T) {
 		" operators covering every rule (G9), (c) type-blind documents over the schema's name pools; plus a corpus of witnesses. oracle: len(Validate) == 0 <=> the reference validator (spec section 5 + introspection depth) reports no violation. " +
 		"non-trivial = document with a fragment or an argument; distinct by (schema, document) text")
 	r.Assume("reference validator harness/ref/validate.go agrees with the 398 applicable imported graphql-js cases (TestSelfValidator); interfaces/unions without object possible types, @skip/@include on subscription roots, float literals overflowing float64 and fragment variable definitions are outside the generated domain")
-	for _, c := range []string{"corpus", "valid", "faulty", "blind"} {
+	for _, c := range []string{"corpus", "valid", "faulty", "blind", "overlap", "introspection"} {
 		kit.RegisterReplayer("C08", c, c08Replay)
 	}
 	if r.ReplayIfRequested() {
@@ -151,6 +151,43 @@ func TestC08(t *testing.T) {
 			}
 		})
 	}
+	// dense-overlap documents on a fixed schema: few names, many collisions, fragments meeting under
+	// exclusive and common parents, cycles; and introspection documents with fragments at several depths
+	special := func(check string, n int, schema string, draw func(rt *rapid.T) *ref.Doc) {
+		r.Rapid(check, n, func(rt *rapid.T) {
+			d := draw(rt)
+			c := valCase{Schema: schema, Query: gen.JoinPlain(gen.QueryLexemes(d, gen.Canon)), Class: check}
+			r.Begin(check, func() interface{} { return c })
+			defer r.End()
+			v, known, skip, want, _ := checkVerdict("C08", c)
+			for _, k := range known {
+				r.Known(k)
+			}
+			if skip {
+				r.HarnessErrorf("generated %s case is outside the domain: %s", check, c.Query)
+				rt.Fatalf("harness error")
+			}
+			if len(want) == 0 {
+				r.Class(check + ":valid")
+			} else {
+				r.Class(check + ":invalid")
+				if len(want) == 1 || rulesOf(want) == want[0].Rule {
+					r.Class(check + ":only-rule:" + want[0].Rule)
+				}
+			}
+			r.Case(true, c.Query)
+			if r.WantSample(check) {
+				r.Sample(check, c)
+			}
+			if v != "" {
+				r.Failf(rt, check, c, "%s", v)
+			}
+		})
+	}
+	special("overlap", kit.Pick(4000, 200000), gen.OverlapSchema, func(rt *rapid.T) *ref.Doc {
+		return gen.OverlapDocument(rt, rapid.IntRange(0, 3).Draw(rt, "acyclic") != 0)
+	})
+	special("introspection", kit.Pick(2500, 100000), c08Schema, gen.IntrospectionDocument)
 	run("valid", 0, kit.Pick(1500, 100000))
 	run("faulty", 1, kit.Pick(3000, 200000))
 	run("blind", 2, kit.Pick(1500, 100000))
